@@ -211,6 +211,25 @@ def _mask_hook(maskvars, used):
 def compute_step_part(repo, run, rid, rule_id="C02.2"):
     fn = repo.get(RKM, "compute_step")
     run.analysed_fn(RKM, fn)
+    # semantic verdict (E-EIN: the stage loop interpreted with concrete stages and abstract state axes); the normal-form comparisons below decide only what lies
+    # outside its domain, and are overruled by a definite 'ok' (another way of writing the same stage formula is not a violation)
+    from .. import ein
+    verdict, detail = ein.compute_step_verdict(fn)
+
+    class _R:
+        def judged(self, rid_, what, ok=True, **kw):
+            run.judged(rid_, what + (" [interpreted: ok]" if verdict == "ok" and not ok else ""), ok=ok or verdict == "ok", **kw)
+
+        def report(self, *a, **kw):
+            if verdict != "ok":
+                run.report(*a, **kw)
+    _run, run_ = run, _R()
+    if verdict == "bad":
+        run.judged(rid, "compute_step interpreted over %d concrete stages: %s" % (ein.NS, detail[:100]), ok=False)
+        run.report(rule_id, RKM, fn, "the generic stage loop, interpreted with %d concrete stages and the state's axes kept abstract, does not evaluate stage i at (t0 + c_i h, "
+                   "y0 + h sum_j a_ij k_j) and store it at [..., i]: %s" % (ein.NS, detail), text="compute_step interpreted: %s" % detail[:110])
+    else:
+        run.judged(rid, "compute_step interpreted over %d concrete stages: %s" % (ein.NS, verdict if verdict != "ok" else detail[:90]), nontrivial=verdict == "ok")
     P = [a.arg for a in fn.args.args]
     ndef = len(fn.args.defaults)
     if len(P) < 8 or len(P) - ndef > 7:
@@ -228,9 +247,9 @@ def compute_step_part(repo, run, rid, rule_id="C02.2"):
     okr = isinstance(it, ast.Call) and dotted(it.func) == "range" and len(it.args) in (1, 2) and \
         c0.text(it.args[-1]) in ("Sin.shape[-1]", "Sout.shape[-1]", "TAB.shape[0]", "len(TAB)") and \
         (len(it.args) == 1 or (isinstance(it.args[0], ast.Constant) and it.args[0].value == 0))
-    run.judged(rid, "compute_step loop: %s" % src(loop.iter), ok=okr)
+    run_.judged(rid, "compute_step loop: %s" % src(loop.iter), ok=okr)
     if not okr:
-        run.report(rule_id, RKM, loop.iter, "the stage loop does not run over all stages (range(number of stages)): a stage slope that is not recomputed is "
+        run_.report(rule_id, RKM, loop.iter, "the stage loop does not run over all stages (range(number of stages)): a stage slope that is not recomputed is "
                                             "whatever the stage array held before (a value of a previous step, of another state or another right-hand side)")
     # masks
     maskvars = {}
@@ -245,9 +264,9 @@ def compute_step_part(repo, run, rid, rule_id="C02.2"):
             for cmp_ in [x for x in ast.walk(st.value) if isinstance(x, ast.Compare)]:
                 bad = any(isinstance(o, (ast.Lt, ast.Gt, ast.LtE, ast.GtE)) for o in cmp_.ops) and not any(
                     isinstance(x, ast.Call) and fname(x) in ("abs", "absolute") for x in ast.walk(cmp_))
-                run.judged(rid, "coefficient mask: %s" % src(st), ok=not bad)
+                run_.judged(rid, "coefficient mask: %s" % src(st), ok=not bad)
                 if bad:
-                    run.report(rule_id, RKM, cmp_, "the coefficient mask orders coefficients against a constant: coefficients of one sign are "
+                    run_.report(rule_id, RKM, cmp_, "the coefficient mask orders coefficients against a constant: coefficients of one sign are "
                                                    "dropped from the stage sum (only exactly-zero coefficients may be masked)")
     env = inline_locals(fn, keep=set(maskvars))
     used = []
@@ -259,15 +278,15 @@ def compute_step_part(repo, run, rid, rule_id="C02.2"):
     want_t = T("t0 + h * TAB[stage, 0]")
     got_t = canon.poly(call.args[0])
     ok = got_t == want_t
-    run.judged(rid, "compute_step time argument: %s" % got_t.canon(), ok=ok)
+    run_.judged(rid, "compute_step time argument: %s" % got_t.canon(), ok=ok)
     if not ok:
-        run.report(rule_id, RKM, call.args[0], "stage time is %s, the Runge-Kutta stage time is t0 + h*c_i = %s" % (got_t.canon(), want_t.canon()))
+        run_.report(rule_id, RKM, call.args[0], "stage time is %s, the Runge-Kutta stage time is t0 + h*c_i = %s" % (got_t.canon(), want_t.canon()))
     got_y = canon.poly(call.args[1])
     cands = [T("y0 + h * sum(Sin * TAB[stage, 1:], axis=-1)"), T("y0 + sum(h * Sin * TAB[stage, 1:], axis=-1)")]
     ok = got_y in cands and len(set(used)) <= 1
-    run.judged(rid, "compute_step state argument: %s" % got_y.canon(), ok=ok)
+    run_.judged(rid, "compute_step state argument: %s" % got_y.canon(), ok=ok)
     if not ok:
-        run.report(rule_id, RKM, call.args[1], "stage state is %s, the Runge-Kutta stage state is %s%s" % (
+        run_.report(rule_id, RKM, call.args[1], "stage state is %s, the Runge-Kutta stage state is %s%s" % (
             got_y.canon(), cands[0].canon(), "; the two factors are masked differently" if len(set(used)) > 1 else ""))
     # result stored at [..., stage] of Sout
     okst = False
@@ -278,9 +297,9 @@ def compute_step_part(repo, run, rid, rule_id="C02.2"):
                 v = st.value
                 if v is call or (isinstance(v, ast.Name) and env.get(v.id) is call):
                     okst = True
-    run.judged(rid, "compute_step stores rhs value at Sout[..., stage]", ok=okst)
+    run_.judged(rid, "compute_step stores rhs value at Sout[..., stage]", ok=okst)
     if not okst:
-        run.report(rule_id, RKM, loop, "the slope of stage i is not stored at [..., i] of the output stage array", text="stage store in compute_step")
+        run_.report(rule_id, RKM, loop, "the slope of stage i is not stored at [..., i] of the output stage array", text="stage store in compute_step")
 
     return fn, P, roles, loop, canon, env, call
 
@@ -312,6 +331,20 @@ def stage_args(repo, run, rule_id="C02.2"):
         if len(cs) != 1:
             raise AnalysisError("%s: expected one rhs evaluation, found %d" % (meth, len(cs)))
         c = cs[0]
+        # semantic verdict first (E-EIN: stage axes concrete, state axes abstract); the normal-form comparison below is the fallback for what lies outside its domain
+        if meth == "algebraic_system":
+            from .. import ein
+            verdict, detail = ein.stage_system_verdict(f2)
+            if verdict == "ok":
+                for what in ("time argument", "state argument"):
+                    run.judged(rid, "%s %s (interpreted over %d concrete stages, abstract state axes): %s" % (meth, what, ein.NS, detail[:80]), ok=True)
+                run.judged(rid, "algebraic_system residual is K - stack([f(stage i) for rows], axis=-1) (interpreted)", ok=True)
+                continue
+            if verdict == "bad":
+                run.judged(rid, "%s interpreted over %d concrete stages: %s" % (meth, ein.NS, detail[:100]), ok=False)
+                run.report(rule_id, ITY, c.args[1], "the stage system, interpreted with %d concrete stages and the state's axes kept abstract, is not F(k)_i = k_i - f(t0 + c_i h, y0 + h sum_j "
+                           "a_ij k_j): %s" % (ein.NS, detail), text="algebraic_system interpreted: %s" % detail[:110])
+                continue
         gt, gy = c2.poly(c.args[0]), c2.poly(c.args[1])
         wt = T("t0 + h * row[0]")
         K = "reshape(K0, self.stage_values.shape)"
